@@ -396,6 +396,10 @@ class _FuncVal:
         self.fnode, self.args, self.kw = fnode, tuple(args), dict(kw or {})
 
 
+_OPERATOR_FUNCS = {"add": ast.Add, "sub": ast.Sub, "mul": ast.Mult, "truediv": ast.Div, "floordiv": ast.FloorDiv, "mod": ast.Mod, "pow": ast.Pow, "matmul": ast.MatMult,
+                   "lt": ast.Lt, "le": ast.LtE, "gt": ast.Gt, "ge": ast.GtE, "eq": ast.Eq, "ne": ast.NotEq}
+
+
 class _Continue(Exception):
     pass
 
@@ -1187,6 +1191,12 @@ class Folder:
                     args = [self.ev(a, env) for a in n.args]
                     kw = self._kwargs(n, env)
                     return self.call(fv.fnode, list(fv.args) + args, {**fv.kw, **kw})
+        if isinstance(f, ast.Attribute) and isinstance(f.value, ast.Name) and f.value.id == "operator" and "operator" not in env and len(n.args) == 2 and not n.keywords \
+                and f.attr in _OPERATOR_FUNCS:
+            # the stdlib spelling of an operator is the operator
+            opn = _OPERATOR_FUNCS[f.attr]
+            syn = ast.Compare(left=n.args[0], ops=[opn()], comparators=[n.args[1]]) if issubclass(opn, ast.cmpop) else ast.BinOp(left=n.args[0], op=opn(), right=n.args[1])
+            return self.ev(ast.fix_missing_locations(ast.copy_location(syn, n)), env)
         if not isinstance(f, (ast.Name, ast.Attribute)):
             try:
                 fv_ = self.ev(f, env)
@@ -1444,6 +1454,23 @@ class Folder:
         if all(isinstance(x, (list, tuple, str)) for x in its):
             return [tuple(t) for t in zip(*its)]
         raise Refuse("zip over non-literal")
+
+    def c_next(self, a, kw):
+        """next(sequence-or-generator folded to a list[, default]): first element, the default, or StopIteration."""
+        it = a[0].data if isinstance(a[0], Arr) else a[0]
+        if not isinstance(it, (list, tuple)):
+            raise Refuse("next of a non-literal iterator")
+        if it:
+            return it[0]
+        if len(a) > 1:
+            return a[1]
+        raise Raised("StopIteration")
+
+    def c_iter(self, a, kw):
+        it = a[0].data if isinstance(a[0], Arr) else a[0]
+        if isinstance(it, (list, tuple)) and len(a) == 1:
+            return list(it)
+        raise Refuse("iter of a non-literal")
 
     def c_reversed(self, a, kw):
         if isinstance(a[0], (list, tuple, str)):
